@@ -66,6 +66,35 @@ var compositions = [][]int{{1, 3}, {3, 1}, {2, 2}, {1, 1, 2}, {1, 2, 1}, {2, 1, 
 var errInjected = errors.New("injected entropy source failure")
 
 func c09Run(c *core.Ctx) {
+	{
+		// every stream of each recipe's cell with at most one (thorough: two)
+		// deviating draws is a base stream for the fault enumeration
+		dev, maxLeaves := 1, int64(400)
+		if c.Thorough() {
+			dev, maxLeaves = 2, 3000
+		}
+		for ci, cs := range c09Cases() {
+			if !c.Mine() {
+				continue
+			}
+			g := cs.Gen()
+			var bases [][]uint32
+			exploreCell(g, CellOpt{DepthCut: 40, Fallback: 2, MaxMenu: 64, MaxLeaves: maxLeaves, Dev: dev}, func(l *Leaf) {
+				if l.Out.Aborted || !l.Out.HasPw {
+					return
+				}
+				w := make([]uint32, len(l.Bounds))
+				for i := range w {
+					w[i], _ = cal.Rep(l.Bounds[i], l.Outs[i])
+				}
+				bases = append(bases, w)
+			})
+			for _, words := range bases {
+				c09Faults(c, ci, cs, g, words)
+			}
+			c.Count("base_streams_from_cells", int64(len(bases)))
+		}
+	}
 	for ci, cs := range c09Cases() {
 		for pi, pol := range c09Policies {
 			if !c.Mine() {
@@ -214,7 +243,7 @@ func init() {
 	Register(&core.Check{
 		ID:    "C09",
 		Level: "fault_enumeration",
-		Rule: "8 recipes (character with/without retries, default recipe, wordlist with preset/functional/retrying separators) x 4 scripted source streams (one with words of the rejection zone); for EVERY read position k of the fault-free run: an error ({custom, io.EOF}) after 0,1,2,3 delivered bytes, and read k served in each of the 7 other compositions of 4 bytes with and without a leading (0,nil) read; plus all reads chunked alike, a replay of the same bytes, and single-draw outcome changes; " +
+		Rule: "8 recipes (character with/without retries, default recipe, wordlist with preset/functional/retrying separators) x 4 scripted source streams (one with words of the rejection zone); for EVERY read position k of the fault-free run: an error ({custom, io.EOF}) after 0,1,2,3 delivered bytes, and read k served in each of the 7 other compositions of 4 bytes with and without a leading (0,nil) read; every stream of each recipe's cell with at most one (thorough: two) deviating draws as base stream; plus all reads chunked alike, a replay of the same bytes, and single-draw outcome changes; " +
 			"non-trivial = faults actually injected (distinct (recipe, stream, read, fault) tuples)",
 		Assume:      []string{"go1.23.5: crypto/rand.Read returns the reader's error (later Go versions abort the process instead)", "the only fallible dependency of generation is crypto/rand.Reader"},
 		Run:         c09Run,
@@ -252,4 +281,49 @@ func init() {
 		}
 		return fmt.Sprintf("base %q; with fault/chunking: pw=%q err=%q panic=%q", base.Str, out.Str, out.Err, out.Panic), bad
 	}
+}
+
+// c09Faults enumerates error faults and chunkings at every read of one base stream.
+func c09Faults(c *core.Ctx, ci int, cs c09Case, g func() (*spg.Password, error), words []uint32) {
+	base, bt := runScript(g, words)
+	c.Count("executions", 1)
+	if !base.HasPw {
+		return
+	}
+	K := bt.Reads
+	for k := 1; k <= K; k++ {
+		for _, e := range []error{errInjected, io.EOF} {
+			for j := 0; j <= 3; j++ {
+				t := tape.New(&tape.Script{W: words})
+				t.FaultAt, t.Fault = k, tape.Fault{Deliver: j, Err: e}
+				install(t)
+				out := runGen(g)
+				c.Count("executions", 1)
+				c.Count("faults_injected", 1)
+				rp := map[string]interface{}{"case": ci, "case_name": cs.Name, "words": words, "fault_at_read": k, "deliver": j, "err": e.Error()}
+				fk := fmt.Sprintf("%s fault(err=%s)", cs.Name, e)
+				if out.HasPw {
+					c.Violation(fk+" password", fmt.Sprintf("the source failed at read %d of %d (%d bytes delivered, %v) but Generate returned %q", k, K, j, e, out.Str), rp)
+					return
+				} else if t.ReadsAfterFault != 0 {
+					c.Violation(fk+" continued", fmt.Sprintf("source failed at read %d but %d more reads followed", k, t.ReadsAfterFault), rp)
+					return
+				}
+			}
+		}
+		for _, comp := range compositions {
+			t := tape.New(&tape.Script{W: words})
+			t.ChunkAt, t.Chunks = k, comp
+			install(t)
+			out := runGen(g)
+			c.Count("executions", 1)
+			c.Count("chunkings", 1)
+			if !sameOut(out, base) || t.Served != bt.Served {
+				c.Violation(cs.Name+" chunking", fmt.Sprintf("read %d served in pieces %v: result %q (%s%s), unchunked %q", k, comp, out.Str, out.Err, out.Panic, base.Str),
+					map[string]interface{}{"case": ci, "case_name": cs.Name, "words": words, "chunk_at_read": k, "chunks": comp})
+				return
+			}
+		}
+	}
+	c.Count("read_positions", int64(K))
 }
